@@ -1326,10 +1326,41 @@ private:
           str += '\t';
           break;
         case 'u':
-          // Unicode escape - simplified implementation
-          _pos += 4;  // Skip the 4 hex digits for now
-          str += '?'; // Placeholder
+        {
+          // Unicode escape; a UTF-16 surrogate pair (U+D800..DBFF followed by U+DC00..DFFF) forms one code point
+          std::uint32_t cp = 0;
+          if (!_parseHex4(cp))
+          {
+            return false;
+          }
+          if (cp >= 0xD800 && cp <= 0xDBFF)
+          {
+            std::uint32_t low = 0;
+            if (_pos + 2 >= _text.size() || _text[_pos + 1] != '\\' || _text[_pos + 2] != 'u')
+            {
+              _error = "Unpaired surrogate in \\u escape";
+              return false;
+            }
+            _pos += 2;
+            if (!_parseHex4(low))
+            {
+              return false;
+            }
+            if (low < 0xDC00 || low > 0xDFFF)
+            {
+              _error = "Unpaired surrogate in \\u escape";
+              return false;
+            }
+            cp = 0x10000 + ((cp - 0xD800) << 10) + (low - 0xDC00);
+          }
+          else if (cp >= 0xDC00 && cp <= 0xDFFF)
+          {
+            _error = "Unpaired surrogate in \\u escape";
+            return false;
+          }
+          _appendUtf8(str, cp);
           break;
+        }
         default:
           _error = "Invalid escape sequence";
           return false;
@@ -1351,6 +1382,64 @@ private:
     ++_pos; // Skip closing quote
     out = Json(std::move(str));
     return true;
+  }
+
+  /// \brief Reads the four hex digits of a Unicode escape (_pos is on the 'u'); leaves _pos on the last digit.
+  bool _parseHex4(std::uint32_t &out)
+  {
+    if (_pos + 4 >= _text.size())
+    {
+      _pos = _text.size();
+      _error = "Truncated \\u escape";
+      return false;
+    }
+    out = 0;
+    for (int i = 1; i <= 4; ++i)
+    {
+      char h = _text[_pos + i];
+      std::uint32_t v;
+      if (h >= '0' && h <= '9')
+        v = static_cast<std::uint32_t>(h - '0');
+      else if (h >= 'a' && h <= 'f')
+        v = static_cast<std::uint32_t>(h - 'a' + 10);
+      else if (h >= 'A' && h <= 'F')
+        v = static_cast<std::uint32_t>(h - 'A' + 10);
+      else
+      {
+        _pos += i;
+        _error = "Invalid hex digit in \\u escape";
+        return false;
+      }
+      out = (out << 4) | v;
+    }
+    _pos += 4;
+    return true;
+  }
+
+  static void _appendUtf8(std::string &str, std::uint32_t cp)
+  {
+    if (cp < 0x80)
+    {
+      str += static_cast<char>(cp);
+    }
+    else if (cp < 0x800)
+    {
+      str += static_cast<char>(0xC0 | (cp >> 6));
+      str += static_cast<char>(0x80 | (cp & 0x3F));
+    }
+    else if (cp < 0x10000)
+    {
+      str += static_cast<char>(0xE0 | (cp >> 12));
+      str += static_cast<char>(0x80 | ((cp >> 6) & 0x3F));
+      str += static_cast<char>(0x80 | (cp & 0x3F));
+    }
+    else
+    {
+      str += static_cast<char>(0xF0 | (cp >> 18));
+      str += static_cast<char>(0x80 | ((cp >> 12) & 0x3F));
+      str += static_cast<char>(0x80 | ((cp >> 6) & 0x3F));
+      str += static_cast<char>(0x80 | (cp & 0x3F));
+    }
   }
 
   bool _parseArray(Json &out, std::size_t depth)
